@@ -86,3 +86,35 @@ def coverage_counts(out):
     for m in re.finditer(r"<(\w+) line \d+, col \d+ to line \d+, col \d+ of module (\w+)>: (\d+):(\d+)", out):
         cov[m.group(1)] = (int(m.group(3)), int(m.group(4)))
     return cov
+
+
+def evaluate(extends, expr, tag="eval", timeout=120, base_cfg=None):
+    """let TLC evaluate a constant expression of module `extends` and return it as Python data (via Json!ToJson).
+    Used to export vectors / alphabets / layout tables FROM the specification to the harness."""
+    import json
+    os.makedirs(OUT, exist_ok=True)
+    name = "Eval_%s_%d" % (tag, os.getpid())
+    path = os.path.join(SPEC, name + ".tla")
+    cfgp = os.path.join(SPEC, name + ".cfg")
+    try:
+        with open(path, "w") as fh:
+            fh.write("---- MODULE %s ----\nEXTENDS %s, Json, SequencesExt\nVARIABLE evx\n"
+                     "ASSUME PrintT(<<\"EVAL\", ToJson(%s)>>)\nEvInit == evx = 0\nEvNext == evx' = evx\n"
+                     "EvSpec == EvInit /\\ [][EvNext]_evx\n====\n" % (name, extends, expr))
+        with open(cfgp, "w") as fh:
+            fh.write("SPECIFICATION EvSpec\n")
+            if base_cfg:
+                for line in open(os.path.join(SPEC, base_cfg)):
+                    if not re.match(r"\s*(SPECIFICATION|INVARIANT|PROPERTY|CONSTRAINT|VIEW|CHECK_DEADLOCK)", line):
+                        fh.write(line)
+        r = run(name + ".tla", name + ".cfg", workers=1, timeout=timeout, tag=name)
+    finally:
+        for p in (path, cfgp):
+            if os.path.exists(p):
+                os.remove(p)
+    m = re.search(r'<<"EVAL", (".*")>>', r["out"], re.S)
+    if not m:
+        raise TlcError("TLC evaluation of %s failed:\n%s" % (expr, r["out"][-1500:]))
+    lit = m.group(1)
+    s = json.loads(re.sub(r"\s*\n\s*", "", lit))
+    return json.loads(s)
